@@ -547,6 +547,16 @@ def ob_handle_remove(ctx, tier):
                 c.fail("remove_unregisters_another_dispatcher", p)
             if "a2" not in repr(un[0].args[3]):
                 c.fail("remove_unregister_not_with_callers_token", p)
+            # removal is final whatever unregister answers: when remove returns, the slot is vacant (so the token is dead,
+            # the loop's reference is released and the slot reusable), also when the poller call failed
+            if p.status == "return":
+                try:
+                    src = gm[0].ret.payloads["Ok"][0].pointee.value.fields[1]
+                    vacant = isinstance(src, Enum) and (src.disc == 0 if isinstance(src.disc, int) else entails(ctx, p.pc, dz(src.disc) == 0)[0])
+                except Exception:
+                    raise Unsupported("slot of the removed source not found in the final state")
+                if not vacant:
+                    c.fail("removed_source_left_in_its_slot", p)
         else:
             # nothing unregistered: the lookup failed or the slot was vacant
             if tk:
@@ -681,6 +691,10 @@ def ob_register_dispatcher(ctx, tier):
         tf = calls(p, r"TokenFactory::new$")
         if not tf or ("*r%d.0" % ve[0].idx) not in repr(tf[0].args[0]):
             c.fail("register_dispatcher_token_not_the_slots", p)
+        # the slot list is only asked for the vacant entry: nothing else (no other lookup, no structural change)
+        other = [e for e in calls(p, r"SourceList::<.*>::\w+$") if not e.callee.endswith("::vacant_entry")]
+        if other:
+            c.fail("register_dispatcher_changes_the_slot_list_beyond_its_entry", p)
         failed, _ = entails(ctx, p.pc, dz(rg[0].ret.disc) == 1)
         if failed:
             c.witness = True
@@ -1407,8 +1421,9 @@ STREAM_PE = r"::process_events\(_1: &mut StreamSource<S>"
 
 
 def ob_stream(ctx, tier):
-    """StreamSource: poll_next is repeated until Pending; Some(x) => callback(Some(x)) with that x;
-    None => exactly one callback(None), the loop ends, and the source returns Remove"""
+    """StreamSource: poll_next is repeated until Pending (a dispatch that stops earlier must wake itself
+    up again: the waker is only registered by a Pending answer); Some(x) => callback(Some(x)) with
+    that x; None => exactly one callback(None), the loop ends, and the source returns Remove"""
     c = Chk()
     f, paths, cfg = run_fn(ctx, STREAM_CL, unroll=1)
     for p in paths:
@@ -1437,6 +1452,24 @@ def ob_stream(ctx, tier):
                 if after[1:]:
                     c.fail("stream_used_after_its_end", p)
     f2, p2, cfg2 = run_fn(ctx, STREAM_PE, unroll=1, inline=INL_PING, key="stream")
+    # a dispatch may only stop polling a stream that said Ready(Some) (instead of Pending / end) if it wakes itself up
+    # again: the stream registers the waker only when it answers Pending
+    outer_self_wake = any(calls(p, r"Ping::ping$|rustix::io::write") for p in p2)
+    for p in paths:
+        if p.status != "return":
+            continue
+        pn = calls(p, r" as Stream>::poll_next$")
+        if not pn:
+            continue
+        last = pn[-1]
+        pending = entails(ctx, p.pc, dz(last.ret.disc) == 1)[0]
+        if pending:
+            continue
+        item = last.ret.payloads["Ready"][0]
+        if entails(ctx, p.pc, dz(disc_of(item)) == 0)[0]:
+            continue                         # end of stream
+        if not calls(p, r"Ping::ping$|rustix::io::write", last.idx) and not outer_self_wake:
+            c.fail("stream_left_before_pending_without_self_wakeup", p)
     for p in p2:
         if p.status != "return" or not ret_is(p, 0):
             continue
@@ -1602,6 +1635,34 @@ def ob_async_io(ctx, tier):
                     want = ("READ", "WRITE")[fld]
                     if want not in repr(rw[0].args[1]):
                         c.fail(nm + "_registers_wrong_interest", p)
+    # register_waker (the one place every pending future goes through): the interest and the waker of THIS call are
+    # stored, and the one-shot registration is re-armed with the poller on every call -- a stored waker says nothing
+    # about the direction the fd is armed for -- with the poller's verdict returned
+    f, paths, cfg = run_fn(ctx, r"::register_waker\(_1: &Async")
+    allp += paths
+    fl = struct_fields(ctx, "IoDispatcher")
+    for p in paths:
+        if p.status != "return":
+            continue
+        bs = [e for e in p.trace if e.kind == "borrow"]
+        rr = calls(p, r"IoLoopInner>::reregister$")
+        if len(rr) != 1:
+            c.fail("register_waker_does_not_rearm_the_registration_exactly_once", p)
+            continue
+        try:
+            disp = bs[0].ret.pointee.value
+            w, i = disp.fields.get(fl.index("waker")), disp.fields.get(fl.index("interest"))
+        except Exception:
+            c.fail("register_waker_shape", p)
+            continue
+        if not (isinstance(w, Enum) and w.disc == 1 and "a3" in repr(w.payloads["Some"][0])):
+            c.fail("register_waker_does_not_store_the_callers_waker", p)
+        if "a2" not in repr(i):
+            c.fail("register_waker_does_not_store_the_callers_interest", p)
+        if [g for g in rr[0].guards]:
+            c.fail("dispatcher_borrowed_while_reregistering", p)
+        if p.ret is not rr[0].ret:
+            c.fail("register_waker_hides_the_pollers_verdict", p)
     for nm, want in (("poll_read", "READ"), ("poll_read_vectored", "READ"), ("poll_write", "WRITE"),
                      ("poll_write_vectored", "WRITE"), ("poll_flush", "WRITE")):
         f, paths, cfg = run_fn(ctx, r"^fn io::<impl at [^>]*>::%s\(_1: Pin<&mut Async" % nm)
@@ -2106,3 +2167,51 @@ def ob_delegation(ctx, tier):
                     if ok_inner != (p.ret.disc == 0):
                         c.fail("%s_%s_does_not_return_the_inner_result" % (nm, meth), p)
     return c.res(allp, cfg)
+
+
+# ---------------------------------------------------------------- C06 / C20: slots are never deallocated
+def ob_slots_never_deallocated(ctx, tier):
+    """the generation scheme rests on a slot outliving its sources: a slot of the SourceList, once
+    created, is never popped, removed, truncated or otherwise deallocated while the loop lives (so its
+    generation counter survives and a reused slot always gets the NEXT generation) -- scanned over every
+    function body of the crate: no shrinking Vec operation on the slot vector; the only growing one
+    is the push in vacant_entry; vacant_entry bumps the generation of the slot it reuses"""
+    c = Chk()
+    shrink = re.compile(r"Vec::<(list::)?SourceEntry<.*>::(pop|remove|swap_remove|truncate|clear|drain|retain|retain_mut|split_off|dedup\w*|set_len|resize\w*)(::<.*>)?$")
+    grow = re.compile(r"Vec::<(list::)?SourceEntry<.*>::(push|insert|extend\w*|append)(::<.*>)?$")
+    seen_push = []
+    n = 0
+    for name, fn in ctx.fns.items():
+        symex.parse_body(fn)
+        for b in fn.blocks.values():
+            t = b.term
+            if not t or t[0] != "call":
+                continue
+            n += 1
+            callee = t[2]
+            if shrink.search(callee):
+                c.failing.append("slot_list_can_shrink:%s" % fn.short()[:60])
+                c.cex = c.cex or ("%s calls %s" % (fn.name, callee))
+            if grow.search(callee):
+                seen_push.append(fn.short())
+    c.witness = bool(seen_push)
+    for sp in seen_push:
+        if "vacant_entry" not in sp:
+            c.failing.append("slot_created_outside_vacant_entry:%s" % sp[:60])
+    # vacant_entry itself: the reused slot gets increment_version of its old token
+    f, paths, cfg = run_fn(ctx, r"::vacant_entry\(_1: &mut SourceList", unroll=1)
+    reuse = 0
+    for p in paths:
+        if p.status != "return":
+            continue
+        iv = calls(p, r"TokenInner::increment_version$")
+        pu = [e for e in p.trace if e.kind == "call" and grow.search(e.callee)]
+        if iv:
+            reuse += 1
+        if not iv and not pu:
+            c.fail("vacant_entry_returns_a_slot_without_new_generation_or_new_slot", p)
+        if iv and pu:
+            c.fail("vacant_entry_shape", p)
+    if not reuse:
+        c.failing.append("vacant_entry_never_bumps_a_generation")
+    return c.res(paths, cfg, "%d call sites scanned" % n)
